@@ -67,6 +67,10 @@ pub struct CancelParams {
     pub action: CancelAction,
     /// harness-level scheduling points the requesting thread lets pass before it acts
     pub delay: u32,
+    /// (EndStreams only, every stream id in use) another thread creates a new stream as soon as an ended one was dropped: it
+    /// is handed the recycled stream id, nobody told it to end, and it sends one more event
+    #[serde(default)]
+    pub replace: bool,
 }
 
 fn cancel_body(p: &CancelParams) {
@@ -78,8 +82,8 @@ fn cancel_body(p: &CancelParams) {
     let ch: ChanArc = Arc::new(chan::make::<Tracked>(kind, p.buffer, p.max_streams, &name));
     let shared = Arc::new(HLock::new(Shared { events: vec![], drops: vec![], producers_active: p.producers.len() }));
     // streams first (Multi listeners only see what is sent during their life), then the events already buffered
-    let mut drivers = vec![];
-    let mut stream_ids = vec![];
+    let mut drivers: Vec<usize> = vec![];
+    let mut stream_ids: Vec<u32> = vec![];
     let mut streams = vec![];
     for _ in 0..p.streams {
         let s = ch.create_stream();
@@ -103,12 +107,16 @@ fn cancel_body(p: &CancelParams) {
         let thread_no = 1 + n_prod + s;
         handles.push(shuttle::thread::spawn(move || driver_thread(stream, shared2, d, thread_no, cfg)));
     }
-    let targeted: Vec<bool> = (0..p.streams)
+    let mut targeted: Vec<bool> = (0..p.streams)
         .map(|s| match p.action {
             CancelAction::CancelAll | CancelAction::EndAll => true,
             CancelAction::EndStreams(mask) => mask & (1 << s) != 0,
         })
         .collect();
+    let replace = p.replace && matches!(p.action, CancelAction::EndStreams(_));
+    let canceller_done: Arc<HLock<bool>> = Arc::new(HLock::new(false));
+    // (driver, stream id, creation stamp, id of the event sent after the creation) of the replacement stream
+    let newcomer: Arc<HLock<Option<(usize, u32, u64, u64)>>> = Arc::new(HLock::new(None));
     let mut prod_handles = vec![];
     for (t, ops) in p.producers.iter().enumerate() {
         let (ch2, shared2, ops2) = (Arc::clone(&ch), Arc::clone(&shared), ops.clone());
@@ -116,8 +124,8 @@ fn cancel_body(p: &CancelParams) {
     }
     // the requesting thread
     let request: Arc<HLock<Option<(u64, u64)>>> = Arc::new(HLock::new(None));
-    let canceller = {
-        let (ch2, request2, action, delay, ids, targeted2) = (Arc::clone(&ch), Arc::clone(&request), p.action, p.delay, stream_ids.clone(), targeted.clone());
+    let mut canceller = Some({
+        let (ch2, request2, action, delay, ids, targeted2, canceller_done2) = (Arc::clone(&ch), Arc::clone(&request), p.action, p.delay, stream_ids.clone(), targeted.clone(), Arc::clone(&canceller_done));
         let kind_name = kind.name();
         shuttle::thread::spawn(move || {
             for _ in 0..delay {
@@ -160,12 +168,86 @@ fn cancel_body(p: &CancelParams) {
             }
             let ret = ctx::stamp();
             *request2.lock().unwrap() = Some((inv, ret));
+            *canceller_done2.lock().unwrap() = true;
         })
+    });
+    // the replacing thread: as soon as a stream is gone it creates a new one (handed the recycled id) and sends an event
+    let replacer = if replace {
+        let (ch2, shared2, newcomer2, canceller_done3, n_streams, hold, churn) = (Arc::clone(&ch), Arc::clone(&shared), Arc::clone(&newcomer), Arc::clone(&canceller_done), p.streams, p.hold, p.waker_churn);
+        let thread_no = 1 + n_prod + p.streams;
+        Some(shuttle::thread::spawn(move || {
+            let mut rounds = 0u32;
+            // "its stream id becomes reusable once it is dropped": once the drop has *returned* on the consumer's thread (while
+            // it is still in progress MAX_STREAMS streams exist, and one more may not be created)
+            let _ = n_streams;
+            while shared2.lock().unwrap().drops.is_empty() {
+                if ctx::aborted() || *canceller_done3.lock().unwrap() {
+                    return None;
+                }
+                harness_yield();
+                rounds += 1;
+                if rounds > 50_000 {
+                    return None;
+                }
+            }
+            let create_inv = ctx::stamp();
+            let stream = ch2.create_stream();
+            let created = ctx::stamp();
+            let id = stream.stream_id();
+            ctx::trace(|| format!("replacement stream created with id {}", id));
+            let d = harness::new_driver();
+            *newcomer2.lock().unwrap() = Some((d, id, create_inv, created));
+            let shared3 = Arc::clone(&shared2);
+            let cfg = DriverCfg { hold, spurious_poll: 0, waker_churn: churn };
+            let h = shuttle::thread::spawn(move || driver_thread(stream, shared3, d, thread_no, cfg));
+            // one more event, sent after the newcomer exists
+            let ev = event_id(40, 0);
+            let inv = ctx::stamp();
+            ctx::op_mark("send[after_the_replacement]");
+            let accepted = ch2.send(ev).accepted();
+            ctx::op_mark("");
+            let ret = ctx::stamp();
+            shared2.lock().unwrap().events.push(Ev { thread: 40, kind: EvKind::SendOp(Entry::Send), id: ev, inv, ret, accepted, ended: false, intact: true, setter_invoked_on_reject: false, addr: 0, wakes_delivered: 0, wake_misses: 0 });
+            Some(h)
+        }))
+    } else {
+        None
     };
     for h in prod_handles {
         let _ = h.join();
     }
-    let _ = canceller.join();
+    let mut newcomer_created_at: Option<u64> = None;
+    let mut newcomer_creation: Option<(u32, u64, u64)> = None;
+    if let Some(r) = replacer {
+        if let Ok(Some(h)) = r.join() {
+            handles.push(h);
+        }
+        if let Some((d, id, create_inv, created)) = *newcomer.lock().unwrap() {
+            drivers.push(d);
+            stream_ids.push(id);
+            targeted.push(false);
+            newcomer_created_at = Some(created);
+            newcomer_creation = Some((id, create_inv, created));
+            ctx::with_ctx(|c| *c.probes.entry("harness.cancel.replacement_stream_got_a_recycled_id").or_insert(0) += stream_ids[..stream_ids.len() - 1].contains(&id) as u64);
+        }
+        // the request may legitimately still be waiting (see below): the verdicts do not wait for it
+        let mut rounds = 0u32;
+        loop {
+            let sh = shared.lock().unwrap();
+            let all_ended = (0..p.streams).all(|s| !targeted[s] || sh.events.iter().any(|e| e.thread == 1 + n_prod + s && e.kind == EvKind::Poll && e.ended));
+            drop(sh);
+            if all_ended || *canceller_done.lock().unwrap() || ctx::aborted() {
+                break;
+            }
+            harness_yield();
+            rounds += 1;
+            if rounds > 4_000 {
+                break;
+            }
+        }
+    } else if let Some(c) = canceller.take() {
+        let _ = c.join();
+    }
     if ctx::aborted() {
         for d in drivers.iter() {
             harness::stop_driver(*d);
@@ -176,9 +258,10 @@ fn cancel_body(p: &CancelParams) {
     if ctx::aborted() {
         return;
     }
+    let n_streams = drivers.len();
     // ---- verdict 1: every targeted stream has answered end-of-stream (nobody is left who could wake it)
     let ended = |thread_no: usize| shared.lock().unwrap().events.iter().any(|e| e.thread == thread_no && e.kind == EvKind::Poll && e.ended);
-    for s in 0..p.streams {
+    for s in 0..n_streams {
         let thread_no = 1 + n_prod + s;
         let (parked, wakes) = harness::with_driver(drivers[s], |d| (d.parked.get(), d.wakes.get()));
         if targeted[s] && !ended(thread_no) {
@@ -194,7 +277,7 @@ fn cancel_body(p: &CancelParams) {
         }
     }
     // ---- verdict 2: untargeted streams keep receiving (a lost wake-up, C04's subject, is neutralised by a harness-side flush)
-    let untargeted: Vec<usize> = (0..p.streams).filter(|s| !targeted[*s]).collect();
+    let untargeted: Vec<usize> = (0..n_streams).filter(|s| !targeted[*s]).collect();
     if !untargeted.is_empty() && ctx::with_ctx(|c| c.violations.is_empty()).unwrap_or(true) {
         loop {
             let before = shared.lock().unwrap().events.iter().filter(|e| e.kind == EvKind::Poll && e.accepted).count();
@@ -224,10 +307,17 @@ fn cancel_body(p: &CancelParams) {
             for s in untargeted.iter() {
                 let thread_no = 1 + n_prod + *s;
                 for e in accepted.iter() {
+                    if *s >= p.streams && newcomer_created_at.map(|c| e.inv < c).unwrap_or(false) {
+                        // the replacement listener is entitled to what was sent after it existed
+                        continue;
+                    }
                     if !sh.events.iter().any(|y| y.thread == thread_no && y.kind == EvKind::Poll && y.accepted && y.id == e.id) {
                         // which history is it? The send ran while a listener with a lower stream id was being removed (the live
                         // list is compacted under the sender's cursor -- the recorded finding), or nothing of the kind happened
-                        let removal_under_the_cursor = (0..p.streams).any(|t| targeted[t] && stream_ids[t] < stream_ids[*s] && sh.drops.iter().any(|(th, d_inv, d_ret)| *th == 1 + n_prod + t && *d_inv < e.ret && e.inv < *d_ret));
+                        let removal_under_the_cursor = (0..p.streams).any(|t| targeted[t] && stream_ids[t] <= stream_ids[*s] && sh.drops.iter().any(|(th, d_inv, d_ret)| *th == 1 + n_prod + t && *d_inv < e.ret && e.inv < *d_ret));
+                        // ... or a listener with a lower stream id was being *added* (the same list is rewritten the other way)
+                        let addition_under_the_cursor = *s < p.streams && newcomer_creation.map(|(id, c_inv, c_ret)| id <= stream_ids[*s] && c_inv < e.ret && e.inv < c_ret).unwrap_or(false);
+                        let removal_under_the_cursor = removal_under_the_cursor || addition_under_the_cursor;
                         let oracle = if removal_under_the_cursor { "untargeted_starved" } else { "untargeted_starved_without_a_concurrent_removal" };
                         ctx::report("C07", oracle, key(oracle), format!("listener #{} (stream id {}) was not told to end, yet it never yielded accepted event {:#x} (sent during stamps {}..{}; removals of listeners (thread, from, to): {:?})", s, stream_ids[*s], e.id, e.inv, e.ret, sh.drops));
                         break;
@@ -237,12 +327,20 @@ fn cancel_body(p: &CancelParams) {
         }
     }
     // ---- end of run: everybody ends; afterwards the stream ids are reusable
+    if replace && !*canceller_done.lock().unwrap() {
+        // gracefully_end_stream() waits until it *sees* the stream id vacant; the id was handed out again before it looked:
+        // it goes on waiting until the newcomer is gone as well (noted, not judged: C07 speaks about the streams)
+        ctx::with_ctx(|c| *c.probes.entry("harness.cancel.end_stream_still_waiting_after_its_stream_was_dropped_and_the_id_recycled").or_insert(0) += 1);
+    }
     ch.cancel_all();
     for d in drivers.iter() {
         harness::stop_driver(*d);
     }
     for h in handles {
         let _ = h.join();
+    }
+    if let Some(c) = canceller.take() {
+        let _ = c.join();
     }
     if ctx::aborted() {
         return;
@@ -319,7 +417,10 @@ impl Scenario for Cancel {
         if kind != Kind::MultiMmapLog && rng.chance(1, 6) {
             sched.origin = u32::MAX - rng.below(3 * buffer as u64 + 2) as u32;
         }
-        CancelParams { sched, kind, buffer, max_streams, streams, prefill, producers, hold: if rng.chance(1, 3) { 1 } else { 0 }, waker_churn: rng.chance(1, 4), action, delay: *rng.pick(&[0, 0, 1, 3, 8, 20, 60]) }
+        let replace = matches!(action, CancelAction::EndStreams(_)) && streams == max_streams && kind != Kind::MultiMmapLog && total + 1 < buffer && rng.chance(1, 2);
+        // with a replacement exactly one stream is told to end (the request may go on waiting once the id was handed out again)
+        let action = if replace { CancelAction::EndStreams(1 << rng.below(streams as u64)) } else { action };
+        CancelParams { sched, kind, buffer, max_streams, streams, prefill, producers, hold: if rng.chance(1, 3) { 1 } else { 0 }, waker_churn: rng.chance(1, 4), action, delay: *rng.pick(&[0, 0, 1, 3, 8, 20, 60]), replace }
     }
     fn sched<'a>(&self, p: &'a CancelParams) -> &'a SchedSpec {
         &p.sched
@@ -376,6 +477,11 @@ impl Scenario for Cancel {
         if p.waker_churn {
             let mut q = p.clone();
             q.waker_churn = false;
+            out.push(q);
+        }
+        if p.replace {
+            let mut q = p.clone();
+            q.replace = false;
             out.push(q);
         }
         if p.sched.weak_cas > 0 || p.sched.stall > 0 {
